@@ -353,6 +353,18 @@ def contractStep (s : KSt) : List String → Option (KSt × String)
   | ["K-digest", "bridge"] =>
     some (s, s!"{s.bridge.requests.length} {(s.bridge.requests.filter (fun e => e.2.redeemed != 0)).length}")
   | ["K-digest", "htlc"] => some (s, s!"{s.htlc.entries.length} {s.htlc.proxy.length}")
+  | ["K-stake-gc", owner, id] =>
+    let (n, owner) := s.names.addr owner
+    let (n, id) := n.hash id
+    match s.stake.collect (owner, id) with
+    | none => some ({ s with names := n }, "not-a-cancelled-entry")
+    | some st => some ({ s with names := n, stake := st }, "ok")
+  | ["K-lstake-gc", owner, id] =>
+    let (n, owner) := s.names.addr owner
+    let (n, id) := n.hash id
+    match s.liquidity.collect (owner, id) with
+    | none => some ({ s with names := n }, "not-a-cancelled-entry")
+    | some st => some ({ s with names := n, liquidity := st }, "ok")
   | ["K-digest", "plasma"] =>
     some (s, s!"{s.plasma.fusions.length} {s.plasma.owed} {s.plasma.fused.length} {total id s.plasma.fused}")
   | ["K-digest", "stake"] => some (s, s!"{s.stake.entries.length} {s.stake.owed}")
